@@ -323,6 +323,7 @@ class Executor:
         self.objs: dict[int, object] = {}  # uid -> real object
         self.uids: dict[int, int] = {}  # id(real) -> uid
         self.moved_inside: set[int] = set()  # aliases that travelled inside a re-inserted subtree
+        self.used_second_collection = False
         self.reg_seen_ok: set = set()
         self.attach_mark: dict = {}  # id(alias) -> (id(target), length of the target's registry log before its last insertion)  # (alias uid, id(target), path) whose registration was seen correct
         if not model_only:
@@ -678,6 +679,7 @@ class Executor:
 
     def op_transfer(self, op, ctx):
         """Move a top-level module to the other collection: delete it here, insert it there."""
+        self.used_second_collection = True
         m = self.model
         src, dst = (m.root, m.root2) if op["dir"] == "out" else (m.root2, m.root)
         node = src.children.get(op["name"])
@@ -1068,7 +1070,11 @@ class Executor:
                             # (the displacer is a stale alias - one of this history, deleted, replaced or moved away, or a view
                             # handed out by an earlier lookup through an alias -, not the wrapper of an *inherited* member,
                             # which has no business at the path of a declared one)
-                            if reg is not None and mine and writes[-1][1] != id(co) and not getattr(reg, "inherited", False):
+                            # (wrappers are rebuilt on every lookup and take each other's place by design: only a
+                            # *declared* alias of this history displaced by an inherited-member wrapper is something new)
+                            # (with a second collection in play the same dotted path can name objects of both collections, and
+                            # a wrapper of one takes the registry slot of a declared alias of the other: old attribution)
+                            if reg is not None and mine and writes[-1][1] != id(co) and not (getattr(reg, "inherited", False) and id(co) in self.uids and not self.used_second_collection):
                                 # this alias did register itself here; later another alias object that lived at this
                                 # path earlier (deleted, replaced or moved away since; entries are never purged)
                                 # re-registered itself and displaced it
